@@ -718,7 +718,7 @@ def _parsers(repo, rep):
               "define/repeat accept the keywords global and local",
               construct="define-keywords", detail=str(sorted(w)))
     f = repo.func("chameleon.tal.parse_substitution")
-    t = " ".join(src(x) for x in ast.walk(f.node) if isinstance(x, ast.stmt))
+    t = L.text(f.node)
     rep.check("if not key: key = 'text'" in t and
               "return (key, expression)" in t, "R01.8", f.qualname,
               "without a keyword a substitution is text (escaped)",
@@ -729,7 +729,7 @@ def _parsers(repo, rep):
               "groups, in this order", construct="subst-groups",
               where=L.where(f))
     f = repo.func("chameleon.tal.parse_defines")
-    t = " ".join(src(x) for x in ast.walk(f.node) if isinstance(x, ast.stmt))
+    t = L.text(f.node)
     rep.check("context = context or 'local'" in t, "R01.8", f.qualname,
               "without a keyword a definition is local",
               construct="define-default", where=L.where(f))
@@ -744,13 +744,13 @@ def _parsers(repo, rep):
               "part, in written order", construct="define-triples",
               where=L.where(f))
     ve = repo.func(VE)
-    t = " ".join(src(x) for x in ast.walk(ve.node) if isinstance(x, ast.stmt))
+    t = L.text(ve.node)
     rep.check("nodes.Assignment(names, nodes.Value(expr), context == "
               "'local')" in t, "R01.8", ve.qualname, "the context keyword "
               "decides local vs global", construct="define-context",
               where=L.where(ve))
     f = repo.func("chameleon.zpt.program.MacroProgram._make_content_node")
-    t = " ".join(src(x) for x in ast.walk(f.node) if isinstance(x, ast.stmt))
+    t = L.text(f.node)
     rep.check("char_escape = ('&', '<', '>') if key == 'text' else ()" in t,
               "R01.8", f.qualname, "only the structure keyword switches "
               "escaping off", construct="subst-key-escape", where=L.where(f))
